@@ -10,7 +10,7 @@
 //!   name    the claimed user name as an array of its UTF-8 bytes       sid     hex of the UTF-8 bytes of the server id
 //!   secret  hex of the shared secret     pubkey  hex of the encoded public key
 //!   script  what the mock answers: ok | 204 | 403 | 500 | 500profile | 300profile | garbage | empty | truncated |
-//!           wrongshape | nothttp | close          reply_id (32 hex) / reply_name: the profile an `ok`-like answer carries
+//!           wrongshape | emptyobj | errorjson | idonly | nameonly | nothttp | close          reply_id (32 hex) / reply_name: the profile an `ok`-like answer carries
 //!   (anything else, e.g. the hashlib digest, is echoed untouched in `vec`)
 //! Output (NDJSON, same order):
 //!   line      1-based number of the case                vec     the case exactly as given
